@@ -143,6 +143,11 @@ func (c *Check) finish(o runOpts) int {
 	for _, n := range c.Notes {
 		fmt.Printf("   note: %s\n", n)
 	}
+	if os.Getenv("APCHECK_VERBOSE") != "" {
+		for _, ob := range c.obs {
+			fmt.Printf("   ob %-5v %s [%s] %s\n", ob.OK, ob.Key, ob.Pos, ob.Detail)
+		}
+	}
 	for _, ob := range knownHit {
 		fmt.Printf("KNOWN-FINDING: property=%s %s %s [%s] %s\n", c.ID, ob.Key, knownByKey[ob.Key].What, ob.Pos, ob.Detail)
 	}
